@@ -43,6 +43,8 @@ pub enum Op {
     ObjDel(usize),
     /// read(None) on replica r (warms the reconstruction caches; the result is not part of the state)
     Read(usize),
+    /// remove_object(uuid) on replica r, uuid = "obj" (n = 0) or the element id "x" (n = 1)
+    ObjRemove(usize, usize),
 }
 
 impl Op {
@@ -63,7 +65,8 @@ impl Op {
             | Op::CopyAll(r, _)
             | Op::ObjPut(r, _)
             | Op::ObjDel(r)
-            | Op::Read(r) => *r,
+            | Op::Read(r)
+            | Op::ObjRemove(r, _) => *r,
         }
     }
     pub fn short(&self) -> String {
@@ -84,6 +87,7 @@ impl Op {
             Op::ObjPut(r, n) => format!("objput({},{})", r, n),
             Op::ObjDel(r) => format!("objdel({})", r),
             Op::Read(r) => format!("read({})", r),
+            Op::ObjRemove(r, n) => format!("objremove({},{})", r, n),
         }
     }
 }
@@ -417,6 +421,11 @@ impl World {
                         .map(|x| x.unwrap_or_default())
                         .map_err(|e| e.to_string())
                 })
+            }
+            Op::ObjRemove(_, n) => {
+                let m = &self.reps[r].m;
+                let uuid = if *n == 0 { "obj" } else { "x" };
+                call(&label, || m.remove_object(uuid).map(|x| x.unwrap_or_default()).map_err(|e| e.to_string()))
             }
             Op::Read(_) => {
                 let m = &self.reps[r].m;
